@@ -32,6 +32,15 @@ claimed.update({
     "C01": dict(text="Decision layer only: the real cds/eds/lds/rdsNeedsPush are monotone under request merging (batching never loses a push a constituent change required) for every pair of requests "
                      "(every config kind, symbolic names, every trigger reason, sidecar/router/waypoint), and a forced request pushes every type and is never filtered.",
                 note="Outside (stated): equality of resources that are not resent, end-to-end stream convergence (needs generator read-sets).", ref="§4 C01"),
+    "C03": dict(text="One server-initiated delta push (pushDeltaXds/sendDelta) from an arbitrary bookkeeping state with an arbitrary generator output: the reference delta client ends up holding exactly what the reference SotW client holds, "
+                     "everything that ceased to exist is removed, nothing just sent is removed, ECDS never carries removals, removed names sorted, record/nonce updated only on a successful send; delta-aware generators: record follows the delta.",
+                note="Outside: equivalence of delta-aware generators (cluster builder, workload generator) with their SotW counterparts.", ref="§4 C03"),
+    "C05": dict(text="Fresh stream (no server record), client presents arbitrary retained names, subscriptions and foreign nonces, CDS/EDS in either order: every re-sent subscription is answered, retained-but-deleted names are removed, the record is rebuilt from the current state, "
+                     "a CDS request is followed by an EDS push (delta) / the EDS re-request after CDS is answered exactly once (SotW), and the exchange ends silent (no loop).",
+                note="Outside: initConnection ordering, IsServerReady gate, WDS content versions, generator content.", ref="§4 C05"),
+    "C06": dict(text="Cache token/invalidation protocol of the real lruCache (Add/Get/Clear/ClearAll/Flush + LRU eviction) as a bounded model check with symbolic push-start and invalidation instants: a hit is never older than an invalidation of one of its dependencies, "
+                     "every stored entry stays indexed under every dependency; CDS cache key: every scalar field and every list field (DR from-list, EnvoyFilter keys, service accounts) changes the key stream unambiguously.",
+                note="Outside: inputs read by generators but absent from the entry struct; byte-equality of cached vs fresh protobuf; xxhash collisions.", ref="§4 C06"),
     "C09": dict(text="CreateCertificate binds SANs to exactly the authenticated identities (or the single impersonated identity after the node authorizer accepted it), never to CSR text or other metadata, ForCA is never set, "
                      "unauthenticated callers never reach the signer; the per-cluster impersonation gate accepts only trusted callers whose pod exists with matching UID/SA and only identities running on the caller's node; "
                      "the OIDC authenticator never crashes on any verified subject and derives the identity only from a well-formed system:serviceaccount:ns:sa subject with a matching audience.",
